@@ -62,7 +62,7 @@ def persisted_partition(cx):
                  shape=[(show(v), [show_lit(l) for l in lits]) for lits, v, _ in rets])
 
 
-@obligation("READY.must_sync", ["C06", "C07"], floor=3, kind="must-pass-through under assumption",
+@obligation("READY.must_sync", ["C02", "C06", "C07"], floor=3, kind="must-pass-through under assumption",
             why="the application would be told it may defer the fsync of a vote, a snapshot or entries")
 def must_sync(cx):
     rd = cx.fn("RawNode::ready")
